@@ -1002,6 +1002,20 @@ pub(crate) struct ExcHandler {
     pub(crate) finally_ip: *const u8,
     pub(crate) init_stack_size: usize,
     pub(crate) frame_count: usize,
+    pub(crate) nested_trys: usize,
+}
+
+/// A `return` that is waiting for a finally block to finish.
+#[derive(Clone, Copy, Debug)]
+pub(crate) struct PendingReturn {
+    pub(crate) value: Value,
+    pub(crate) ip: *const u8,
+    /// The frame that is returning.
+    pub(crate) frame_count: usize,
+    /// Number of handlers that enclose the finally block being waited for.
+    pub(crate) handler_depth: usize,
+    /// Try statements of the returning frame entered, and not yet left, inside that finally block.
+    pub(crate) nested_trys: usize,
 }
 
 impl ExcHandler {
@@ -1019,9 +1033,8 @@ pub struct ObjFiber {
     pub(crate) native_arity: Option<usize>,
     pub(crate) open_upvalues: Option<Gc<RefCell<ObjUpvalue>>>,
     pub(crate) call_arity: usize,
-    pub(crate) return_value: Value,
+    pub(crate) pending_returns: Vec<PendingReturn>,
     pub(crate) exc_handlers: Vec<ExcHandler>,
-    pub(crate) return_ip: Option<*const u8>,
     pub(crate) error_ip: Option<*const u8>,
     pub(crate) handling_exception: bool,
 }
@@ -1043,9 +1056,8 @@ impl ObjFiber {
             native_arity: None,
             open_upvalues: None,
             call_arity: arity as usize,
-            return_value: Value::None,
+            pending_returns: Vec::new(),
             exc_handlers: Vec::new(),
-            return_ip: None,
             error_ip: None,
             handling_exception: false,
         }
@@ -1111,11 +1123,22 @@ impl ObjFiber {
     }
 
     pub(crate) fn push_exc_handler(&mut self, catch_ip: *const u8, finally_ip: *const u8) {
+        // A try statement entered while this frame's return waits for a finally block is nested in
+        // that block: its own end must not complete the return.
+        let frame_count = self.frames.len();
+        let mut nested_trys = 0;
+        if let Some(pending) = self.pending_returns.last_mut() {
+            if pending.frame_count == frame_count {
+                pending.nested_trys += 1;
+                nested_trys = pending.nested_trys;
+            }
+        }
         self.exc_handlers.push(ExcHandler {
             catch_ip,
             finally_ip,
             init_stack_size: self.stack.len(),
-            frame_count: self.frames.len(),
+            frame_count,
+            nested_trys,
         })
     }
 
@@ -1123,13 +1146,38 @@ impl ObjFiber {
         self.exc_handlers.pop()
     }
 
+    /// Called where a try statement ends. Completes the pending return of the current frame if this
+    /// is the end of the finally block it was waiting for.
     pub(crate) fn take_return_data(&mut self) -> Option<(Value, *const u8)> {
-        if let Some(ip) = self.return_ip.take() {
-            let value = self.return_value;
-            self.return_value = Value::None;
-            Some((value, ip))
-        } else {
-            None
+        let frame_count = self.frames.len();
+        let pending = self.pending_returns.last_mut()?;
+        if pending.frame_count != frame_count {
+            return None;
+        }
+        if pending.nested_trys > 0 {
+            pending.nested_trys -= 1;
+            return None;
+        }
+        self.pending_returns.pop().map(|p| (p.value, p.ip))
+    }
+
+    /// Called when an exception is delivered to `handler`, which has just been popped.
+    pub(crate) fn unwind_pending_returns(&mut self, handler: &ExcHandler) {
+        let handler_index = self.exc_handlers.len();
+        while let Some(pending) = self.pending_returns.last() {
+            let frame_gone = pending.frame_count > handler.frame_count;
+            let left_finally =
+                pending.frame_count == handler.frame_count && handler_index < pending.handler_depth;
+            if frame_gone || left_finally {
+                self.pending_returns.pop();
+            } else {
+                break;
+            }
+        }
+        if let Some(pending) = self.pending_returns.last_mut() {
+            if pending.frame_count == handler.frame_count {
+                pending.nested_trys = handler.nested_trys;
+            }
         }
     }
 
@@ -1164,7 +1212,9 @@ impl GcManaged for ObjFiber {
         if let Some(&caller) = self.caller.as_ref() {
             caller.mark();
         }
-        self.return_value.mark();
+        for pending in &self.pending_returns {
+            pending.value.mark();
+        }
     }
 
     fn blacken(&self) {
@@ -1176,7 +1226,9 @@ impl GcManaged for ObjFiber {
         if let Some(&caller) = self.caller.as_ref() {
             caller.blacken();
         }
-        self.return_value.blacken();
+        for pending in &self.pending_returns {
+            pending.value.blacken();
+        }
     }
 
     #[cfg(feature = "verif_hooks")]
